@@ -185,6 +185,28 @@ def check_dispatch(rec, log, logs, case) -> bool:
             rec.violation("warnings", f"{expected} lines of the recognised sections are claimed by no kind of their section, but "
                           f"{len(track_warn)} warnings were recorded on the chartparse loggers", case, "warnings!=unclaimed-lines")
             ok = False
+        else:
+            # "reported once as unparsable": the reports are about the UNCLAIMED lines. A report that quotes the text of a line which
+            # was parsed, and quotes no unclaimed line, reports the wrong line (however the message is worded)
+            un, cl = set(), set()
+            for name, body in case["sections"]:
+                k = kind_of(name)
+                if k is None or name not in KNOWN_HEADERS:
+                    continue
+                for ln in body:
+                    core = ln.strip()
+                    (cl if claimants(kinds_of_section(k), ln) else un).add(core)
+            un.discard("")
+            cl = {c for c in cl if len(c) >= 7 and not any(c in u for u in un)}
+            rec.ev()
+            for m in track_warn:
+                if not any(u in m for u in un):
+                    named = next((c for c in cl if c in m), None)
+                    if named is not None:
+                        rec.violation("warnings", f"a report quotes the line {named!r}, which WAS parsed, and no unparsable line: {m[:200]!r}", case,
+                                      "report-names-a-parsed-line")
+                        ok = False
+                        break
     return ok
 
 
